@@ -214,4 +214,163 @@ theorem entriesLoop_flat {F : Bytes} (tb : Tables) (ifd : Ifd) (buf : Bytes) (D 
         exact ⟨a, b, by rw [c, hpo1], d, by rw [e1, hexl1], by rw [f, hl1], g,
           fun x hx => by obtain ⟨k, hk, hr⟩ := hh x hx; exact ⟨k, by omega, hr⟩⟩
 
+theorem readLimit_ge (r : R) : 4 ≤ readLimit r := by
+  unfold readLimit bufioSize scratchSize; split <;> omega
+
+/-- Layer B: the header of a flat directory.  From a coherent reader with an empty queue standing at the directory, with
+the directory (count, 12-byte entries, next-IFD pointer) inside the file and the limits, every decoded entry `Good` and the
+out-of-line values pairwise disjoint: readIfdHeader leaves a coherent reader, an exact read record, and a pending queue
+that is a forward chain. -/
+theorem readIfdHeader_flat {F : Bytes} (tb : Tables) (ifd : Ifd) (r r1 : R) (e1 : Option ErrKind) (cnt : Nat)
+    (hc : Coh F r) (he : Exact F r) (htags : r.tags = []) (hpos : r.pos = 0)
+    (hF : r.po + 2 + 12 * cnt + 4 ≤ F.length) (hx : r.po + 2 + 12 * cnt + 4 ≤ r.exifLength)
+    (hcnt : u16 ifd.order ((F.drop r.po).take 2) = .ok cnt) (hc83 : cnt ≤ 83) (hlim : 12 * cnt ≤ readLimit r)
+    (hgood : ∀ k t, k < cnt → entryAt ifd ((F.drop (r.po + 2)).take (cnt * 12)) k = .ok (some t) →
+      Good F (r.po + 2 + 12 * cnt + 4) r.exifLength (readLimit r) t)
+    (hdisj : ∀ k k' t t', k < cnt → k' < cnt → k ≠ k' → entryAt ifd ((F.drop (r.po + 2)).take (cnt * 12)) k = .ok (some t) →
+      entryAt ifd ((F.drop (r.po + 2)).take (cnt * 12)) k' = .ok (some t') → t.isEmbedded = false → t'.isEmbedded = false → Disj t t')
+    (hnext : ifd.typ = ifd0 → u32 ifd.order ((F.drop (r.po + 2 + 12 * cnt)).take 4) = .ok 0)
+    (h : readIfdHeader tb r ifd = .ok (r1, e1)) :
+    Coh F r1 ∧ Exact F r1 ∧ Chain F r1.exifLength (readLimit r1) r1.po (r1.tags.drop r1.pos) := by
+  have hl4 := readLimit_ge r
+  -- the two reads of the directory
+  have hr2 := fastRead_exact hc 2 (by omega) (by omega) (by omega)
+  have hc2 := hc.fastRead 2
+  have hk2 := Keep.fastRead r 2
+  have hlim2 : readLimit (fastRead r 2).r = readLimit r := by unfold readLimit; rw [hk2.buffered]
+  have hr3 := fastRead_exact hc2 (cnt * 12) (by rw [hr2.2.2]; omega) (by rw [hr2.2.2, hk2.exl]; omega) (by rw [hlim2]; omega)
+  have hc3 := hc2.fastRead (cnt * 12)
+  have hk3 := hk2.trans (Keep.fastRead (fastRead r 2).r (cnt * 12))
+  have hlim3 : readLimit (fastRead (fastRead r 2).r (cnt * 12)).r = readLimit r := by unfold readLimit; rw [hk3.buffered]
+  have hpo3 : (fastRead (fastRead r 2).r (cnt * 12)).r.po = r.po + 2 + 12 * cnt := by rw [hr3.2.2, hr2.2.2]; omega
+  have hbuf3 : (fastRead (fastRead r 2).r (cnt * 12)).buf = (F.drop (r.po + 2)).take (cnt * 12) := by rw [hr3.2.1, hr2.2.2]
+  unfold Exif.readIfdHeader at h
+  dsimp only at h
+  rw [hr2.1] at h
+  dsimp only at h
+  rw [hr2.2.1, hcnt] at h
+  obtain ⟨c', hch, h⟩ := bind_ok h
+  simp only [Outcome.ok.injEq] at hch
+  subst hch
+  rw [if_neg (by omega), hr3.1] at h
+  dsimp only at h
+  obtain ⟨r3, hloop, hnx⟩ := bind_ok h
+  rw [hbuf3] at hloop
+  have hE3 : Exact F (fastRead (fastRead r 2).r (cnt * 12)).r := by intro x hx; rw [hk3.reads] at hx; exact he x hx
+  have hflat := entriesLoop_flat (F := F) tb ifd _ (r.po + 2 + 12 * cnt + 4) cnt 0 _ r3 hc3 hE3 (by rw [hpo3]; omega)
+    (by rw [hk3.pos]; exact hpos) (by rw [hk3.tags, htags]; unfold Lay; simp) (by rw [hk3.tags, htags]; intro x hx; cases hx)
+    (by rw [hk3.tags, htags]; simp) (by omega)
+    (fun k t hk hd => by rw [hk3.exl, hlim3]; exact hgood k t (by omega) hd)
+    (fun k k' t t' hk hk' => hdisj k k' t t' (by omega) (by omega)) hloop
+  obtain ⟨hc4, he4, hpo4, hpos4, hexl4, hlim4, hlay4, hmem4⟩ := hflat
+  rw [hpo3] at hpo4
+  rw [hk3.exl] at hexl4
+  rw [hlim3] at hlim4
+  -- the pending queue of r3 is a forward chain from any position up to the end of the directory
+  have hchain : ∀ p, p ≤ r.po + 2 + 12 * cnt + 4 → Chain F r.exifLength (readLimit r) p (r3.tags.drop 0) := by
+    intro p hp
+    apply Chain.of_pairwise _ _ hlay4
+    · intro t ht
+      obtain ⟨k, hk, hke, hko⟩ := hmem4 t ht
+      have hg := hgood k t (by omega) hke
+      have ho := hg.2.2.2 hko
+      exact ⟨hg.1, hg.2.1, ho.2.1, ho.2.2.1, ho.2.2.2⟩
+    · intro t ht
+      obtain ⟨k, hk, hke, hko⟩ := hmem4 t ht
+      have hg := hgood k t (by omega) hke
+      have ho := hg.2.2.2 hko
+      omega
+  -- the next-IFD pointer
+  unfold Exif.readNextIfdTag at hnx
+  split at hnx
+  · dsimp only at hnx
+    have hr5 := fastRead_exact hc4 4 (by rw [hpo4]; omega) (by rw [hpo4, hexl4]; omega) (by rw [hlim4]; omega)
+    have hc5 := hc4.fastRead 4
+    have hk5 := Keep.fastRead r3 4
+    rw [hr5.1] at hnx
+    dsimp only at hnx
+    obtain ⟨nx, hnxv, hnx⟩ := bind_ok hnx
+    rw [hr5.2.1, hpo4] at hnxv
+    have hno : ¬ (ifd.typ = ifd0 ∧ nx ≠ 0) := by
+      intro hh
+      have := hnext hh.1
+      rw [this] at hnxv
+      simp only [Outcome.ok.injEq] at hnxv
+      exact hh.2 hnxv.symm
+    rw [if_neg hno] at hnx
+    simp only [Outcome.ok.injEq, Prod.mk.injEq] at hnx
+    rw [← hnx.1]
+    refine ⟨hc5, by intro x hx; rw [hk5.reads] at hx; exact he4 x hx, ?_⟩
+    have hl5 : readLimit (fastRead r3 4).r = readLimit r := by unfold readLimit at hlim4 ⊢; rw [hk5.buffered]; exact hlim4
+    rw [hk5.exl, hexl4, hl5, hr5.2.2, hpo4, hk5.tags, hk5.pos, hpos4]
+    exact hchain _ (by omega)
+  · simp only [Outcome.ok.injEq, Prod.mk.injEq] at hnx
+    rw [← hnx.1]
+    refine ⟨hc4, he4, ?_⟩
+    rw [hexl4, hlim4, hpo4, hpos4]
+    exact hchain _ (by omega)
+
+/-- the hypotheses of the flat-directory theorems, for a directory at offset d of the file F read with byte order and
+directory type `ifd` under Exif length `exl` and read window `lim` -/
+structure FlatDir (F : Bytes) (ifd : Ifd) (d cnt exl lim : Nat) : Prop where
+  inFile : d + 2 + 12 * cnt + 4 ≤ F.length
+  inExif : d + 2 + 12 * cnt + 4 ≤ exl
+  count : u16 ifd.order ((F.drop d).take 2) = .ok cnt
+  small : cnt ≤ 83
+  window : 12 * cnt ≤ lim
+  good : ∀ k t, k < cnt → entryAt ifd ((F.drop (d + 2)).take (cnt * 12)) k = .ok (some t) → Good F (d + 2 + 12 * cnt + 4) exl lim t
+  disj : ∀ k k' t t', k < cnt → k' < cnt → k ≠ k' → entryAt ifd ((F.drop (d + 2)).take (cnt * 12)) k = .ok (some t) →
+      entryAt ifd ((F.drop (d + 2)).take (cnt * 12)) k' = .ok (some t') → t.isEmbedded = false → t'.isEmbedded = false → Disj t t'
+  next : ifd.typ = ifd0 → u32 ifd.order ((F.drop (d + 2 + 12 * cnt)).take 4) = .ok 0
+
+/-- readIfd on a flat directory in a forward layout: whatever it returns, the reader is coherent with the file and every
+read it made succeeded with exactly the bytes its tag points at -/
+theorem readIfd_flat {F : Bytes} (tb : Tables) (fuel : Nat) (ifd : Ifd) (r r' : R) (e : Option ErrKind) (cnt : Nat)
+    (hc : Coh F r) (he : Exact F r) (htags : r.tags = []) (hpos : r.pos = 0)
+    (hd : FlatDir F ifd r.po cnt r.exifLength (readLimit r))
+    (h : readIfd tb fuel r ifd = .ok (r', e)) : Coh F r' ∧ Exact F r' := by
+  unfold Exif.readIfd at h
+  obtain ⟨p, hp, h⟩ := bind_ok h
+  obtain ⟨r1, e1⟩ := p
+  have hh := readIfdHeader_flat tb ifd r r1 e1 cnt hc he htags hpos hd.inFile hd.inExif hd.count hd.small hd.window hd.good hd.disj hd.next hp
+  dsimp only at h
+  split at h
+  · simp only [Outcome.ok.injEq, Prod.mk.injEq] at h; rw [← h.1]; exact ⟨hh.1, hh.2.1⟩
+  · obtain ⟨r2, h2, h⟩ := bind_ok h
+    simp only [Outcome.ok.injEq, Prod.mk.injEq] at h; rw [← h.1]
+    exact ifdLoop_forward tb fuel r1 r2 hh.1 hh.2.1 hh.2.2 h2
+
+/-- **A flat TIFF in a forward layout is read exactly** (DecodeTiff on the whole file F, first directory at h.firstIfd) -/
+theorem decodeTiff_flat (tb : Tables) (F : Bytes) (buffered : Bool) (h : Hdr) (cnt : Nat) (r' : R) (e : Option ErrKind)
+    (hsmall : F.length < 2 ^ 32)
+    (hd : FlatDir F { off := 0, base := 0, order := h.order, typ := h.firstIfdType, idx := 0 } h.firstIfd cnt (4 * 1024 * 1024)
+      (if buffered then bufioSize else scratchSize))
+    (hres : decodeTiff tb F buffered h = .ok (r', e)) : Coh F r' ∧ Exact F r' := by
+  unfold Exif.decodeTiff at hres
+  dsimp only at hres
+  have hc0 : Coh F { rest := F, po := 0, exifLength := 4 * 1024 * 1024, buffered := buffered, ex := { imageType := h.imageType } } :=
+    ⟨by simp, Nat.zero_le _, hsmall⟩
+  have he0 : Exact F { rest := F, po := 0, exifLength := 4 * 1024 * 1024, buffered := buffered, ex := { imageType := h.imageType } } := by
+    intro x hx; cases hx
+  have hF := hd.inFile
+  have hX := hd.inExif
+  have hde := discard_exact hc0 h.firstIfd (by simp only; omega) (by simp only; omega)
+  have hcd := hc0.discard (h.firstIfd : Int)
+  have hkd := Keep.discard { rest := F, po := 0, exifLength := 4 * 1024 * 1024, buffered := buffered, ex := { imageType := h.imageType } } (h.firstIfd : Int)
+  split at hres
+  · simp only [Outcome.ok.injEq, Prod.mk.injEq] at hres
+    rename_i r1 e1 hdd
+    rw [hdd] at hcd hkd
+    rw [← hres.1]
+    exact ⟨hcd, by intro x hx; rw [hkd.reads] at hx; cases hx⟩
+  · rename_i r1 hdd
+    rw [hdd] at hcd hkd hde
+    dsimp only at hde hcd hkd
+    have hpo : r1.po = h.firstIfd := by rw [hde.2]; simp
+    apply readIfd_flat tb _ _ r1 r' e cnt hcd (by intro x hx; rw [hkd.reads] at hx; cases hx) hkd.tags hkd.pos _ hres
+    rw [hpo, hkd.exl]
+    have : readLimit r1 = (if buffered then bufioSize else scratchSize) := by unfold readLimit; rw [hkd.buffered]
+    rw [this]
+    exact hd
+
 end Imeta.Exif
